@@ -13,12 +13,13 @@ for k in $(seq 0 $((N-1))); do
   git -C /repo worktree add --detach $d/repo HEAD >/dev/null 2>&1
   mine=()
   for i in "${!ids[@]}"; do if [ $((i % N)) -eq $k ]; then mine+=("${ids[$i]}"); fi; done
+  printf "%s\n" "${mine[@]}" > $d/mine.txt
   ( cd $d/verif && VERIF_REPO=$d/repo python3 tools/run_seeded.py "${mine[@]}" > $d/log.txt 2>&1; echo DONE >> $d/log.txt ) &
 done
 wait
 for k in $(seq 0 $((N-1))); do
   d=/tmp/reg_$k
-  for i in $(ls $d/verif/seeded); do cp $d/verif/seeded/$i/meta.json /verif/seeded/$i/meta.json; done
+  for i in $(cat $d/mine.txt); do cp $d/verif/seeded/$i/meta.json /verif/seeded/$i/meta.json; done
   grep -h "caught\|missed\|NOT APPLY" $d/log.txt
   git -C /repo worktree remove --force $d/repo
   rm -rf $d
